@@ -262,6 +262,16 @@ func thresholds(commitFull, govSeqMax, govInjMax, ledgerSolo, ledgerVbft int, pa
 			t.Below = commitReached(r.N, k-1, "one")
 		}
 		local = append(local, t)
+		// configured C and commits for the empty block must not move the quorum (commitcfg.go)
+		for _, lab := range cLabels {
+			if r.N > 400 && r.N%97 != 0 && r.N < 9990 { // beyond 400 a sample is enough: the expression does not change shape
+				break
+			}
+			local = append(local, commitCfgScan(r.N, k, lab, r.N <= commitFull, vio.Seed()))
+			if r.N >= 2 && (r.N <= commitFull || r.N%97 == 0) {
+				local = append(local, commitDisjoint(r.N, lab, vio.Seed()))
+			}
+		}
 		if r.N <= commitFull {
 			for _, shape := range []string{"msgs", "mix"} {
 				t := tres{Site: "commit", N: r.N, Expect: k, Least: -1, Shape: shape}
